@@ -5,6 +5,7 @@ import (
 	"errors"
 	"flag"
 	"fmt"
+	"io/fs"
 	"math/rand"
 	"os"
 	"path/filepath"
@@ -32,13 +33,13 @@ var (
 )
 
 type scriptedDevice struct {
-	caseDev  map[string]any
-	rd       [64]byte
-	report   [1024]byte
-	quote    []byte
-	written  []byte // what the device wrote into the buffer (to its full extent)
-	outLen   uint32
-	events   []Event
+	caseDev map[string]any
+	rd      [64]byte
+	report  [1024]byte
+	quote   []byte
+	written []byte // what the device wrote into the buffer (to its full extent)
+	outLen  uint32
+	events  []Event
 }
 
 func (d *scriptedDevice) Open(string) error { return nil }
@@ -133,16 +134,28 @@ func (d *scriptedDevice) Ioctl(cmd uintptr, arg any) (uintptr, error) {
 }
 
 type scriptedProvider struct {
-	kind  string
-	bytes []byte
-	err   error
-	rdOk  bool
-	rd    [64]byte
+	kind    string
+	bytes   []byte
+	err     error
+	rdOk    bool
+	rd      [64]byte
+	variant int // which error IsSupported gives when it says no
 }
 
 func (p *scriptedProvider) IsSupported() error {
 	if p.kind == "unsupportedNoDevice" || p.kind == "unsupportedFileDevice" {
-		return errors.New("scripted provider: configfs-tsm not available")
+		// whatever the reason it gives (the real configfs provider returns the error of os.MkdirTemp): not supported means the device is tried
+		switch p.variant % 5 {
+		case 0:
+			return errors.New("scripted provider: configfs-tsm not available")
+		case 1:
+			return &fs.PathError{Op: "mkdir", Path: "/sys/kernel/config/tsm/report/entry123", Err: syscall.EACCES}
+		case 2:
+			return fmt.Errorf("could not create report entry: %w", fs.ErrPermission)
+		case 3:
+			return &fs.PathError{Op: "mkdir", Path: "/sys/kernel/config/tsm/report/entry123", Err: syscall.EPERM}
+		}
+		return os.ErrNotExist
 	}
 	return nil
 }
@@ -265,7 +278,7 @@ func RunClientCase(cs map[string]any, id int, seed int64, tmp string) Result {
 			expectData = d.written[:d.outLen]
 		}
 	} else {
-		prov = &scriptedProvider{kind: cs["prov"].(string), bytes: quote, err: errors.New("scripted provider failure"), rd: rd}
+		prov = &scriptedProvider{kind: cs["prov"].(string), bytes: quote, err: errors.New("scripted provider failure"), rd: rd, variant: id}
 		target = prov
 		run := func() {
 			out = Guard(90*time.Second, func() error {
